@@ -83,12 +83,15 @@ class BlockWriteHandler(AbstractWriteHandler):
         *,
         check_end_block: CheckEndBlockCallable | None = None,
         disallow_nested: bool = False,
+        add_missing_end: bool = True,
     ) -> None:
         super().__init__(start_vertex, decompiler, parent)
         self._next_vertex = start_vertex
         self.check_end_block = check_end_block
         self.last_handler_in_block = None
         self._disallow_nested = disallow_nested
+        # If False, no end op is written when the block runs out of vertices (the surrounding block does that).
+        self._add_missing_end = add_missing_end
 
         self.vertex_that_started_block = vertex_that_started_block
         self.last_vertex = None
@@ -127,7 +130,7 @@ class BlockWriteHandler(AbstractWriteHandler):
         # Perform basic end-of-branch check (to see if we need an end, return or hold).
         # we don't need to do that on jumps or fallthrough
         assert self.last_handler_in_block is not None
-        if self._next_vertex is None and not self.last_handler_in_block.ended_on_jump:
+        if self._add_missing_end and self._next_vertex is None and not self.last_handler_in_block.ended_on_jump:
             if previous_vertex is None:
                 # ???
                 raise ValueError("Found end of branch, but no previous op...?")
